@@ -19,6 +19,7 @@ import (
 	"github.com/nuts-foundation/go-did/did"
 	"github.com/nuts-foundation/nuts-node/network/dag"
 	"github.com/nuts-foundation/nuts-node/vdr/resolver"
+	"google.golang.org/protobuf/proto"
 	"github.com/nuts-foundation/nuts-node/network/transport"
 	"github.com/nuts-foundation/nuts-node/network/transport/grpc"
 )
@@ -27,6 +28,7 @@ import (
 // C15 universe: a short trunk and private transactions with every kind of PAL header
 
 type vC15Layout struct {
+	pubReuse int // a PUBLIC transaction (validly signed by its author) whose payload hash is that of the private "honest-AB"
 	trunk, L int
 	priv     []int          // private transaction indices
 	kind     map[int]string // idx -> kind of PAL
@@ -120,6 +122,11 @@ func buildC15Universe(u *vUniverse) *vC15Layout {
 		}
 	}
 	u.addPayload("mismatch", []byte("this payload matches no transaction"))
+	for idx, k := range ly.kind {
+		if k == "honest-AB" {
+			ly.pubReuse = u.add(vTxSpec{prevs: []int{ly.trunk + 12}, clock: -1, payload: u.txs[idx].payload, tag: "pub-hash-reuse"})
+		}
+	}
 	ly.mism = "mismatch"
 	return ly
 }
@@ -256,6 +263,34 @@ func (s *vSim) runC15Scenario(sc vScenario, ly *vC15Layout, dir string, checks *
 				*checks = append(*checks, c)
 			}
 		}
+	}
+	// 3a. a forged PUBLIC transaction with the payload hash of a private one, offered WITHOUT the payload: field absent and field
+	// present-but-empty (on a live list conversation the holder itself started); then anybody asks for it
+	for _, empty := range []bool{false, true} {
+		before := len(s.sent)
+		s.exec(&vOp{Op: "inject", From: 2, To: 0, Msg: &vMsg{T: "gossip", LC: 60,
+			XSet: [][2]int{{ly.trunk, ly.trunk + ly.L}, {ly.priv[0], ly.priv[len(ly.priv)-1] + 1}, {ly.pubReuse, ly.pubReuse + 1}}, Refs: []int{ly.pubReuse}}})
+		var cid *[2]int
+		for _, pk := range s.sent[before:] {
+			if pk.kind == "lq" && pk.src == 0 {
+				e := &Envelope{}
+				_ = proto.Unmarshal(pk.wire, e)
+				if c, ok := s.cidName[string(e.GetTransactionListQuery().ConversationID)]; ok {
+					cc := c
+					cid = &cc
+				}
+			}
+		}
+		if cid == nil {
+			cid = &[2]int{7, 99}
+		}
+		s.exec(&vOp{Op: "inject", From: 2, To: 0, Msg: &vMsg{T: "tl", C: cid, Num: 1, Total: 1, Txs: []vNetTx{{I: ly.pubReuse, Empty: empty}}}})
+		s.exec(&vOp{Op: "inject", From: 3, To: 0, Msg: &vMsg{T: "pq", Ref: ly.pubReuse}})
+		f := [2]int{7, 98}
+		s.exec(&vOp{Op: "inject", From: 2, To: 0, Msg: &vMsg{T: "lq", C: &f, Refs: []int{ly.pubReuse}}})
+		s.exec(&vOp{Op: "inject", From: 3, To: 0, Msg: &vMsg{T: "rq", C: &f, A: 10, B: 20}})
+		s.exec(&vOp{Op: "advance", N: 0, Dt: 4})
+		s.exec(&vOp{Op: "evict", N: 0})
 	}
 	// 3b. seed-dependent traffic: random queries of every type from random peers, random payload deliveries
 	for i := 0; i < 40; i++ {
